@@ -274,6 +274,25 @@ var c12Templates = []sim.Template{
 		return []*sim.Action{act("login", 0, v, "ok"), act("sms_validate", 0, -9, "ok"), act("logout", 0, -9, ""), act("advance", 0, -9, "", "d", "11s"),
 			act("login", 0, v, "ok"), act("sms_validate", 0, -9, "ownsms", "own", fmt.Sprint(v)), act("sms_validate", 0, -9, "ok"), act("sms_validate", 0, -9, "ok")}
 	}},
+	{Name: "login-answered-by-application-listener-then-replay", F: func(s *sim.Sim) []*sim.Action {
+		// the application's own After(EventAuth) listener answers the login request itself (or fails in
+		// it): whatever one-time secret completed that login is spent all the same
+		if len(s.Cfg.TwoFA) == 0 || !s.Cfg.Has("auth") {
+			return nil
+		}
+		k := s.Cfg.TwoFA[s.R.Intn(len(s.Cfg.TwoFA))]
+		v := findAcct(s, func(u *world.User) bool {
+			return u.Confirmed && ((k == "totp" && u.TOTPSecretKey != "" && u.SMSPhone == "") || (k == "sms" && u.SMSPhone != "" && u.TOTPSecretKey == ""))
+		})
+		if v < 0 {
+			return nil
+		}
+		kv := k + "_validate"
+		first := pickS(s.R, "ok", "ok", "recovery")
+		again := map[string]string{"ok": "ok", "recovery": "recovery_spent"}[first]
+		return []*sim.Action{act("login", 0, v, "ok"), act("hooknext", 0, -9, "", "mode", pickS(s.R, "handled", "handled", "error")), act(kv, 0, -9, first),
+			act("login", 1, v, "ok"), act(kv, 1, -9, again), act(kv, 1, -9, again), act(kv, 1, -9, "ok")}
+	}},
 	{Name: "totp-same-code-twice", F: func(s *sim.Sim) []*sim.Action {
 		if !s.Cfg.Has2FA("totp") || !s.Cfg.Has("auth") {
 			return nil
@@ -303,7 +322,7 @@ var c12Profile = &sim.Profile{
 func init() {
 	register(&Check{
 		ID: "C12", Level: "exploration",
-		Rule:  "histories of generate/use/replay/clear/regenerate across 3-4 accounts and 3 browsers against a copying storer (a forgotten Save is visible), directed templates (OTP add x1-6/use/replay from same and other browser/clear/regenerate; recovery use/replay/regenerate; remove-and-enrol-again / add-the-other-kind followed by a code of the replaced batch; SMS code replay; same TOTP code twice) plus random walks whose candidate strings include spent, cleared, other accounts', never-issued and empty values and stored hashes. Ledger: every OTP shown by /otp/add, every recovery code seeded or shown, every SMS in the outbox, every accepted TOTP code. Oracle: an accepted value must be live in the ledger; after acceptance its stored form is gone (recovery list shrunk by exactly one, no remaining hash verifies it; OTP hash absent; sms_secret deleted by the same session write) and the Save precedes the session write that puts uid; <=5 OTPs per account after every request; with the replay-protecting user type the same TOTP code twice in a row is rejected. distinct_nontrivial = distinct (flow, value class, #OTPs held, session state, outcome, mode, replay protection) signatures.",
+		Rule:  "histories of generate/use/replay/clear/regenerate across 3-4 accounts and 3 browsers against a copying storer (a forgotten Save is visible), directed templates (OTP add x1-6/use/replay from same and other browser/clear/regenerate; recovery use/replay/regenerate; remove-and-enrol-again / add-the-other-kind followed by a code of the replaced batch; SMS code replay; same TOTP code twice; a login whose After(EventAuth) is answered by — or fails in — the application's own listener, followed by a replay) plus random walks whose candidate strings include spent, cleared, other accounts', never-issued and empty values and stored hashes. Ledger: every OTP shown by /otp/add, every recovery code seeded or shown, every SMS in the outbox, every accepted TOTP code. Oracle: an accepted value must be live in the ledger; after acceptance its stored form is gone (recovery list shrunk by exactly one, no remaining hash verifies it; OTP hash absent; sms_secret deleted by the same session write) and the Save precedes the session write that puts uid; <=5 OTPs per account after every request; with the replay-protecting user type the same TOTP code twice in a row is rejected. distinct_nontrivial = distinct (flow, value class, #OTPs held, session state, outcome, mode, replay protection) signatures.",
 		Units: func(t string) int { return tierN(t, 500, 20000) },
 		Run: func(c *RunCtx, unit int) {
 			r := Rng(c.Seed, "C12", unit)
